@@ -12,6 +12,8 @@ fn prop_by_id(id: &str) -> Option<Box<dyn Prop>> {
         "C01" => Box::new(props::c01::Framing { cancel: false }),
         "C07" => Box::new(props::c01::Framing { cancel: true }),
         "C02" => Box::new(props::c02::Outbound),
+        "C06" => Box::new(props::c06::ChainProp { borrowed: false }),
+        "C11" => Box::new(props::c06::ChainProp { borrowed: true }),
         _ => return None,
     })
 }
